@@ -69,4 +69,11 @@ example :
     (metaRun true (fun p => p == [97, 47, 98, 47, 99]) es).forwarded = [d [97], d [97, 47, 98], f [97, 47, 98, 47, 99]] := by
   decide
 
+/-- Ids are registered - so content can be requested - for selected entries only: for every stream and selector, whatever the order
+of the entries. -/
+theorem content_requested_only_for_selected (fixed : Bool) (selected : Path → Bool) (es : List StatE) :
+    ∀ p n, (p, n) ∈ (metaRun fixed selected es).files → selected p = true := by
+  intro p n h
+  exact C19F.files_selected fixed selected es {} (by intro pn hpn; cases hpn) (p, n) (by simpa [metaRun] using h)
+
 end Fsm.C19
